@@ -86,7 +86,8 @@ Python for all coefficients; total DOS C = Py = Σ PDOS as ground facts.  Quick 
 AS["C12"] = """**As built** (`checks/c12.py`).  `ddm_vs_dD` with symbolic q (cos/sin atoms canonicalised by parity
 before they are treated as independent variables — without this the same angle appears as `cos(u)` and `cos(−u)`),
 `c_vs_py` with symbolic force constants that are **not** assumed permutation symmetric, Wang C = Python with symbolic
-(non-symmetric) Born tensors; Wang derivative with symbolic q is thorough-only and may be inconclusive.  Solver models
+(non-symmetric) Born tensors (the Wang derivative against a tree derivative for symbolic q was dropped: both layers
+branch on |q|).  Solver models
 carry a meaningless q when the difference is a polynomial in independent cos/sin atoms, so the replay evaluates the
 three routes at generic q-points.  Found a new defect (Hermitisation loop of the compiled derivative, §5).
 Added after the first full pass: **gv** — the real `GroupVelocity.run/_calculate_group_velocity_at_q/
